@@ -273,8 +273,12 @@ int main(int argc, char **argv) {
         while (std::getline(in, line))
             if (!line.empty() && line[0] != '#') ops.push_back(line);
     }
-    size_t next = 0;
+    size_t next = 0, crashes = 0;
     while (next < ops.size()) {
+        if (crashes >= 60) {   // give up on a tree that crashes everywhere: still one line per op
+            for (; next < ops.size(); ++next) puts("crash:skipped");
+            break;
+        }
         int fd[2];
         if (pipe(fd) != 0) return 3;
         fflush(stdout);
@@ -282,11 +286,11 @@ int main(int argc, char **argv) {
         if (pid < 0) return 3;
         if (pid == 0) {
             close(fd[0]);
-            alarm(60);   // a hanging library call ends as crash:signal:14
+            alarm(5);    // a hanging library call ends as crash:signal:14
             FILE *o = fdopen(fd[1], "w");
             for (size_t i = next; i < ops.size(); ++i) {
                 std::string out = step(ops[i]);
-                alarm(60);
+                alarm(5);
                 fputs(out.c_str(), o);
                 fputc('\n', o);
                 fflush(o);
@@ -318,6 +322,7 @@ int main(int argc, char **argv) {
             else snprintf(kind, sizeof kind, "crash:exit:%d", WEXITSTATUS(status));
             puts(kind);
             ++next;
+            ++crashes;
         }
     }
     fflush(stdout);
